@@ -1,34 +1,8 @@
-import Prom.Lemmas.C13Aux
+import Prom.Lemmas.PbDataModel
 
 namespace Prom.C13
 open Prom Prom.Pb
 /-! ### the regenerated tables are compatible -/
-
-def kindCompat : FKind → FKind → Bool
-  | .str, .str | .double, .double | .uint64, .uint64 | .int64, .int64 => true
-  | .enum _, .enum _ => true
-  | .msg a, .msg b => a == b
-  | _, _ => false
-
-def sizeOk (w : WField) : Bool :=
-  match w.kind, w.size with
-  | .str, .tagLenBytes | .msg _, .tagLenBytes | .double, .tagFixed64 => true
-  | .uint64, .tagVarint | .int64, .tagVarint | .enum _, .tagVarint => true
-  | _, _ => false
-
-/-- every message the code writes is declared; every written field is declared with the same
-    name, number, repetition and a compatible type; every declared field is written; field
-    numbers are pairwise distinct; the size rule of `compute_size` matches the wire kind -/
-def Compatible (wt : List (String × List WField)) (sch : List (String × List SField)) : Bool :=
-  wt.length == sch.length &&
-  wt.all fun (name, wfs) =>
-    match lookupMsg sch name with
-    | none => false
-    | some sfs =>
-      wfs.length == sfs.length &&
-      (wfs.map (·.num)).Nodup &&
-      wfs.all (fun w => sizeOk w && sfs.any fun s => s.name == w.name && s.num == w.num && s.repeated == w.repeated && kindCompat w.kind s.kind) &&
-      sfs.all (fun s => wfs.any fun w => s.name == w.name && s.num == w.num)
 
 /-- **compatible_generated** — the writer table extracted from the generated Rust code and the
     schema extracted from the .proto file agree (re-proved from the regenerated tables on every run:
@@ -100,5 +74,59 @@ theorem stream_is_concatenation (tbl : List (String × List WField)) (f : Family
     (hc : (f.samples.isEmpty || f.name.isEmpty) = false) (he : encDelimited tbl (familyFields f) = some b) :
     (encodeStream tbl (f :: r)).1 = b ++ (encodeStream tbl r).1 := by
   simp [encodeStream, hc, he]
+
+/-! ### the wire round trip, for every message shape and nesting depth -/
+
+/-- **message_roundtrip** — for ANY writer table and schema that are `Compatible`, any message of any
+    shape and nesting that the table-driven writer accepts (below 2^64 bytes) is read back by the
+    independent schema-driven reader, from exactly those bytes, as the same fields in write order
+    (`canon`: each level's entries grouped by the table's field order, values untouched): no field is
+    dropped, merged, retyped or renumbered, and nothing else is in the stream. -/
+theorem message_roundtrip (tbl : List (String × List WField)) (sch : List (String × List SField))
+    (hc : Compatible tbl sch = true) (d : Nat) (name : String) (fs : Fields) (bytes : List UInt8)
+    (henc : encMsg tbl d name fs = some bytes) (hlen : bytes.length < 2 ^ 64) :
+    decMsg sch d (bytes.length + 1) name bytes = some (canon tbl d name fs) :=
+  message_rt tbl sch (agrees_of_compatible tbl sch hc) d name fs bytes henc hlen
+
+/-- the messages the library builds are already in the write order of the regenerated table, at
+    every level (labels, value slot, timestamp; count, sum, buckets; …) -/
+theorem library_messages_canonical (f : Family) :
+    canon Gen.writerTable 8 "MetricFamily" (familyFields f) = familyFields f := canon_family 4 f
+
+/-- **exposition_roundtrip** — with the tables regenerated from /repo: whenever the encoder returns
+    Ok, the stream it wrote decodes (independent reader, .proto schema) to exactly the families that
+    were encoded — names, help, types, label pairs, bit-exact values, counts, buckets, timestamps, in
+    order — for every list of families whose counts fit u64 and timestamps fit i64 (`WfSample`). -/
+theorem exposition_roundtrip (fams : List Family)
+    (hok : (encodeStream Gen.writerTable fams).2 = true)
+    (hlen : (encodeStream Gen.writerTable fams).1.length < 2 ^ 64)
+    (hwf : ∀ f ∈ fams, ∀ s ∈ f.samples, WfSample s) :
+    decodeFamilies Gen.schema (encodeStream Gen.writerTable fams).1 = some fams := by
+  have hag := agrees_of_compatible _ _ compatible_generated
+  have he : encodeStream Gen.writerTable fams = ((encodeStream Gen.writerTable fams).1, true) := by rw [← hok]
+  obtain ⟨hd, _⟩ := stream_rt Gen.writerTable Gen.schema hag fams _ he hlen (fun f _ => library_messages_canonical f)
+    ((encodeStream Gen.writerTable fams).1.length + 1) (by
+      have := (stream_rt Gen.writerTable Gen.schema hag fams _ he hlen (fun f _ => library_messages_canonical f) (fams.length + 1) (by omega)).2
+      omega)
+  unfold decodeFamilies
+  rw [hd]
+  exact mapM_msgToFamily fams hwf
+
+/-- non-vacuity: a histogram family with labels, buckets and a timestamp meets every hypothesis -/
+def exFam : Family := ⟨strOfString "h", strOfString "help", .histogram,
+  [⟨[⟨strOfString "k", strOfString "v"⟩], .hist 3 0x4008000000000000 [(0x3FF0000000000000, 1), (0x7FF0000000000000, 3)], -5⟩]⟩
+
+example : (encodeStream Gen.writerTable [exFam]).2 = true := by decide +kernel
+example : (encodeStream Gen.writerTable [exFam]).1.length < 2 ^ 64 := by decide +kernel
+example : ∀ f ∈ [exFam], ∀ s ∈ f.samples, WfSample s := by
+  intro f hf s hs
+  simp only [List.mem_cons, List.not_mem_nil, or_false] at hf
+  subst hf
+  simp only [exFam, List.mem_cons, List.not_mem_nil, or_false] at hs
+  subst hs
+  refine ⟨⟨by decide, ?_⟩, by decide, by decide⟩
+  intro b hb
+  simp only [List.mem_cons, List.not_mem_nil, or_false] at hb
+  rcases hb with rfl | rfl <;> decide
 
 end Prom.C13
